@@ -158,10 +158,15 @@ type scenario struct {
 	// landing just before a write of a pass
 	Restarts  int `json:"restarts"`
 	Conflicts int `json:"conflicts"`
+	// LongLived: all passes of a history run in one operator process (states rebuilt by path replay)
+	LongLived bool `json:"longLived"`
+	// RV0: the cluster's resourceVersion counter starts here (so that versions cross a digit
+	// boundary, 9 -> 10 / 99 -> 100, at different points of the history)
+	RV0 int64 `json:"rv0"`
 }
 
 func (sc scenario) name() string {
-	return fmt.Sprintf("%s delegated=%03b cp=%s users=%d edits=%d restarts=%d conflicts=%d", sc.Kind, sc.Mask, sc.CP, sc.Users, sc.Edits, sc.Restarts, sc.Conflicts)
+	return fmt.Sprintf("%s delegated=%03b cp=%s users=%d edits=%d restarts=%d conflicts=%d longLived=%v rv0=%d", sc.Kind, sc.Mask, sc.CP, sc.Users, sc.Edits, sc.Restarts, sc.Conflicts, sc.LongLived, sc.RV0)
 }
 
 var chainObjs = [][]string{{"a", "b"}, {"a", "b", "c"}, {"a", "c", "d"}}
@@ -188,9 +193,14 @@ func system(sc scenario) *world.System {
 	t := []func() any{}
 	_ = t
 	return &world.System{
-		Name: sc.name(),
+		Name:       sc.name(),
+		Persistent: sc.LongLived,
 		Init: func() *world.World {
 			w := osw.NewWorld()
+			w.S.RV += sc.RV0
+			if sc.LongLived {
+				w.LongLived()
+			}
 			if sc.Kind == "deployment" {
 				w.MustCreate(osw.NewOD("d", world.TemplateSpec(osw.PhaseSpecs(osw.OnePhase("a", "b"), 1), nil), nil))
 				w.Budget["edit"] = sc.Edits
@@ -264,6 +274,10 @@ func scenarios(quick bool) []scenario {
 		{Kind: "deployment", Edits: 2},
 		{Kind: "chain2", Restarts: 1, Conflicts: 1},
 		{Kind: "chain2", Mask: 0b10, Restarts: 1},
+		{Kind: "chain2", LongLived: true},
+		{Kind: "chain3", LongLived: true},
+		{Kind: "chain2", LongLived: true, RV0: 90},
+		{Kind: "chain3", LongLived: true, RV0: 985},
 	}
 	if !quick {
 		out = append(out,
@@ -283,7 +297,7 @@ func scenarios(quick bool) []scenario {
 
 func run(o checks.Opts) *report.Report {
 	rep := report.New("C02", "bfs")
-	rep.Rule = "explicit-state BFS to closure: chains r1{a,b} <- r2{a,b,c} <- r3{a,c,d} of hand-made ObjectSets with previous lists (local or delegated phase per revision, collisionProtection Prevent/IfNoController/None) and an ObjectDeployment rolling T1{a,b} -> T2{a,c} -> T1; events = reconcile of every ObjectSet / ObjectSetPhase / ObjectDeployment in any order, user pausing / archiving / deleting any revision mid-handover, garbage collector, (budgeted) operator crash before request i of a pass and a foreign write landing before write i of a pass; monitor on every effective write to a managed object + state invariant"
+	rep.Rule = "explicit-state BFS to closure: chains r1{a,b} <- r2{a,b,c} <- r3{a,c,d} of hand-made ObjectSets with previous lists (two systems run all passes of a history in one long-lived operator process) (local or delegated phase per revision, collisionProtection Prevent/IfNoController/None) and an ObjectDeployment rolling T1{a,b} -> T2{a,c} -> T1; events = reconcile of every ObjectSet / ObjectSetPhase / ObjectDeployment in any order, user pausing / archiving / deleting any revision mid-handover, garbage collector, (budgeted) operator crash before request i of a pass and a foreign write landing before write i of a pass; monitor on every effective write to a managed object + state invariant"
 	scs := scenarios(o.Quick())
 	rep.Bounds["systems"] = len(scs)
 	for i, sc := range scs {
@@ -472,9 +486,9 @@ func init() {
 		Subs: []*checks.Sub{
 			{Name: "bfs", Shards: func(t string) int {
 				if t == "thorough" {
-					return 15
+					return 19
 				}
-				return 8
+				return 12
 			}, Run: run, Replay: replay, Parallel: true},
 			{Name: "interleavings", Shards: func(string) int { return 8 }, Run: runIL, Replay: replayIL},
 		},
